@@ -12,7 +12,10 @@ ENTRY = dict(
                 "constructor or a send that cannot block every delivery returns in every reachable state after one send per "
                 "consumer; otherwise an explicit witness for every incoming-flow count (capacity+1 deliveries to a never-reached "
                 "node) blocks the caller for every continuation that does not reach the node. Tied to the code by running the "
-                "real engine on enumerated and seeded delivery/arming scripts under a deadline in lock-step with the model."),
+                "real engine on enumerated and seeded delivery/arming scripts under a deadline in lock-step with the model. What a "
+                "MATCHING listener is, is itself proved: the port of MatchesEventInstance of every event kind matches a "
+                "definition instance iff both denote the same thing (kind, references, operation incl. its absence, link "
+                "sources and target, instance identity for timer/conditional events), tied to the code by an exhaustive function differential."),
     level_note=("PARTIAL on the current tree: the facts extracted from /repo select the witness side (known findings "
                 "deliver_blocks_unreached_inbox, deliver_blocks_unstarted_instance, re-observed on the real engine in every run); "
                 "trusted: Lean kernel, extractor, harness, whole-process quiescence detection; modelled, validated by the "
@@ -21,12 +24,18 @@ ENTRY = dict(
                 "time, at quiescence); parallel-multiple satisfiers are covered by the theorems that do not assume `Plain` "
                 "(conservation, stale events) and by C14, not by the release theorem"),
     technique="Lean 4 proof (dichotomy over extracted facts, invariants over operation histories) + lock-step differential under deadlines",
-    lean_modules=["Bpmn.Props.C11", "Bpmn.Props.C11Current", "Bpmn.Props.EngineCurrent"],
-    families=["c11"],
+    lean_modules=["Bpmn.Props.C11", "Bpmn.Props.C11Current", "Bpmn.Props.C11Match", "Bpmn.Props.EngineCurrent"],
+    families=["c11", "c11match"],
     exhaustive=False,
     multi_seed=False,   # the enumerated scripts do not depend on the seed; the thorough tier draws more seeded ones instead
     facts_from=["Engine"],
-    rule=("c11: 15 program shapes (1..3 intermediate catch events with signal / message / two definitions, in sequence, in "
+    rule=("c11match: EXHAUSTIVE function differential of MatchesEventInstance (pkg/event/events.go) against the Lean port "
+          "over every event kind (end, none, cancel, terminate, signal, compensation, message with/without operation, "
+          "escalation, link with 0..3 sources and optional target, error, timer and conditional bound to a definition "
+          "instance) x every definition-instance shape over a 2..3-name domain with each attribute present or absent (55 "
+          "events x 54 instances); the specification `matching = same identity` (Props/C11Match.matches_spec) is evaluated "
+          "on the implementation's own answers (nonmatching_listener_reacts / matching_listener_ignored). "
+          "c11: 15 program shapes (1..3 intermediate catch events with signal / message / two definitions, in sequence, in "
           "parallel branches, behind a never-taken exclusive-gateway branch registered before or after the reached one, two "
           "or three tokens meeting at one catch event at different times, a catch event inside a loop (four rounds), two "
           "catch events behind an event-based gateway), tasks around every catch event; driver scripts = words over {deliver "
